@@ -133,7 +133,7 @@ func (fv *FuncVC) callWithContractEnv(x *ssa.Call, cc *FuncContract, extra map[s
 	// actual arguments (receiver first)
 	var args []TV
 	if com.IsInvoke() {
-		args = append(args, TV{fv.val(com.Value), com.Value.Type()})
+		args = append(args, TV{fv.unwrapEmbedded(fv.val(com.Value), com.Value.Type(), com.Method.Name()), com.Value.Type()})
 	}
 	// Interior pointers (&s.field handed to a callee, e.g. the receiver of fs.buffer.more()): the callee's contract
 	// speaks about a cell of its own. The field is copied into a fresh cell before the call and copied back after it
@@ -284,6 +284,23 @@ func (fv *FuncVC) callWithContractEnv(x *ssa.Call, cc *FuncContract, extra map[s
 	for _, m := range mods {
 		if m.low != "" {
 			fv.oblige("frame@call", "frame@call:"+calleeName, frameProps, fv.writable("", m.low), x.Pos(), fmt.Sprintf("%s may write the scratch region it owns, which must be memory allocated by this call", calleeName))
+			continue
+		}
+		if m.ghost != "" {
+			// a ghost variable the callee may change: the caller's own contract must say so as well
+			listed := false
+			if fv.c != nil {
+				for _, cm := range fv.c.Modifies {
+					if id, ok := cm.(*EIdent); ok && id.Name == m.ghost {
+						listed = true
+					}
+				}
+			}
+			goal := Term("false")
+			if listed {
+				goal = "true"
+			}
+			fv.oblige("frame@call", "frame@call:"+calleeName, frameProps, goal, x.Pos(), fmt.Sprintf("%s may change ghost variable %s, which this function's contract must list in modifies", calleeName, m.ghost))
 			continue
 		}
 		isInterior := false
